@@ -98,6 +98,14 @@ def obligations(ctx: Ctx):
         Ob(f"{P}.F1", "F", "assigns of repair's closure ⊆ {Assignment.value, RepairLog.repairs}", FUNCS, ob_frames),
         Ob(f"{P}.L1", "L", "idempotence of repair from the attempts' contracts", FUNCS, ob_idempotence),
     ]
+    # `with fix off no value changes` at the tools: the switch repair() receives is the caller's argument (bound once,
+    # never recomputed from the profile or anything else) and the document is not mutated outside the repair branch
+    from props import C09 as _C09
+
+    obs += [
+        Ob(f"{P}.F2.validate", "F", "octave_validate: the fix switch is the caller's argument, bound once; with it off the document reaches the emitter unmutated", ["octave_mcp.mcp.validate:ValidateTool.execute"], _C09.ob_fix_off_readonly("octave_mcp.mcp.validate", "ValidateTool.execute", ("fix",))),
+        Ob(f"{P}.F2.write", "F", "octave_write: the lenient switch is the caller's argument, bound once; with it off schema validation does not alter the document", ["octave_mcp.mcp.write:WriteTool.execute"], _C09.ob_fix_off_readonly("octave_mcp.mcp.write", "WriteTool.execute", _C09.WRITE_FIX_GUARDS, region_guard=_C09.WRITE_REGION_GUARD)),
+    ]
     try:
         from props import C11_b
 
